@@ -50,3 +50,13 @@ Print Assumptions C12_no_overwrite.
 Theorem C12_kb_roundtrip : C12_kb_roundtrip_statement.
 Proof. exact C12_kb_roundtrip_proved. Qed.
 Print Assumptions C12_kb_roundtrip.
+
+(* removed rules: a knowledge base entry is a rule with its Deleted flag; RemoveRuleEntry renames the
+   rule to "Deleted_" ++ uuid and sets the flag, BuildKnowledgeBase sets the flag exactly for such
+   names (engine commit 01c7ce8).  For every knowledge base whose flags agree with its names - which
+   building (names without '-': no_dash_not_tombstone) and removing (remove_rule_consistent) maintain -
+   the loaded knowledge base has the same rules with the same removed / active flags, directly, through
+   encode / decode, and hence after any number of store / load generations. *)
+Theorem C12_removed_preserved : C12_removed_preserved_statement.
+Proof. exact C12_removed_preserved_proved. Qed.
+Print Assumptions C12_removed_preserved.
